@@ -618,9 +618,9 @@ PROPS['C07'] = dict(_SEL_COMMON, post_batch=make_stat_post('C07', sel_obs_code, 
 PROPS['C08'] = dict(_SEL_COMMON, post_batch=make_stat_post('C08', sel_obs_code, sel_hist_of),
     coq_targets=['theories/Props/C08.vo', 'theories/Corr/CorrSelect.vo'],
     nontrivial=lambda i, o: len(i[2][1]) >= 2 and i[2][2][1] >= 1,
-    rule='result matrices up to 6 individuals x 4 cases with ties and duplicated individuals, zero cases, single individual, both polarities (Score / Error), configured case count = and < the results available, and 6 and 7 (thorough: 8) cases; exact law by enumerating all case orders in coqc (up to 5040; thorough 40320); matrices with 12, 20 and 50 cases in which every case has exactly one best individual, judged by the closed form of C08_decisive_cases (the first case of the order decides: #{cases whose best is i} / #cases); 20000 (quick) / 400000 (thorough) seeded draws; support both ways (never a zero-probability winner; every individual with noticeable probability is seen) and per-individual frequencies. Non-trivial: >= 2 individuals and >= 1 case.',
+    rule='result matrices up to 6 individuals x 4 cases with ties and duplicated individuals, zero cases, single individual, both polarities (Score / Error), configured case count = and < the results available, and 6 and 7 (thorough: 8) cases; exact law by enumerating all case orders in coqc (up to 5040; thorough 40320); matrices with 12, 20 and 50 cases in which every case has exactly one best individual, judged by the closed form of C08_decisive_cases (the first case of the order decides: #{cases whose best is i} / #cases); 1000 / 3000 / 24000 cases on which 5 / 3 / 2 individuals tie throughout (different only in a result that is not looked at), judged by the closed form of C08_all_tied_uniform (uniform over the population); 20000 (quick) / 400000 (thorough) seeded draws; support both ways (never a zero-probability winner; every individual with noticeable probability is seen) and per-individual frequencies. Non-trivial: >= 2 individuals and >= 1 case.',
     assumptions=['configured case counts not exceeding the results available (the property quantifier); larger counts are exercised under C06'],
-    level_text='Theorems (Props/C08.v): lexicase filtering keeps, at each case, exactly the candidates with the best result on it (early exit included); a survivor is never Pareto-dominated on the considered cases (for either polarity: the proof is over the key order); with zero cases or a single individual the choice is uniform / that individual. The selection probability is by definition the average over case orders of 1/|survivors|. Tied to the code by exact support checks and seeded frequencies.',
+    level_text='Theorems (Props/C08.v): lexicase filtering keeps, at each case, exactly the candidates with the best result on it (early exit included); a survivor is never Pareto-dominated on the considered cases (for either polarity: the proof is over the key order); with zero cases or a single individual the choice is uniform / that individual; when every case has a unique best individual the first case of the order decides, and when all individuals tie on every case considered the choice is uniform - for any number of cases. The selection probability is by definition the average over case orders of 1/|survivors|. Tied to the code by exact support checks and seeded frequencies.',
     level_note='Trusted: Coq kernel; harness+driver; shuffle uniform over permutations (oracle).',
     technique='Coq invariant proof (accompany lemma => non-dominance) over the filtering loop + exact law by permutation enumeration, statistical correspondence',
     design_ref='DESIGN.md §5 C08')
@@ -719,6 +719,10 @@ PROPS['C18'] = dict(
 # ---------------------------------------------------------------------------
 # C09
 def c09_describe(inp, obs):
+    if 500 <= inp[0] < 600:
+        return ('ISLANDS: two Generation values over population %s step with par_next at the same time, each in its own pool of %d rayon threads; the other one fails at its call #%d%s; '
+                'observed, for the one that never fails: [result, population afterwards, log of [saw own population, saw old contents, word1, word2, failed?, child|error, tail of a 15-byte bulk draw]]' % (
+                    inp[1][:8], inp[0] - 500, inp[2], ' (and the observed child maker yields to its pool in the middle of every child)' if inp[2] == 5 else ''))
     if 400 <= inp[0] < 500:
         return ('BULK step: %s on a population of %d scored individuals (genomes 0..n-1) through a GenomeScorer child maker, child-maker call #%d fails (-1: none); '
                 'observed counts [result, [length afterwards, population afterwards is as it must be (children / old population, every individual scored)], '
@@ -732,10 +736,10 @@ PROPS['C09'] = dict(
     coq_targets=['theories/Props/C09.vo', 'theories/Corr/CorrC09.vo'],
     describe=c09_describe, no_shrink=True,
     nontrivial=lambda i, o: len(i[1]) >= 1,
-    classify=lambda i, o: ('serial' if i[0] % 100 == 0 else 'parallel') + ('/genome-scorer' if i[0] >= 100 else '') + ('/bulk' if i[0] >= 400 else ''),
-    bucket=lambda i, o: ['mode=%s' % (('serial' if i[0] % 100 == 0 else 'par/%d' % (i[0] % 100)) + ('/genome-scorer' if i[0] >= 100 else '') + ('/bulk' if i[0] >= 400 else '')),
-                         'size=%d' % (i[1][0] if i[0] >= 400 else len(i[1])), 'failure=%s' % ('injected' if 0 <= i[2] < (i[1][0] if i[0] >= 400 else len(i[1])) else 'none')],
-    rule='Generation::serial_next and par_next (rayon pools of 1, 2, 3, 4, 8, 16 threads, 6 / 100 repetitions each) over populations (Vec; also BTreeSet whose children collide so that the size changes between the steps of one Generation value, and VecDeque) of size 0, 1, 2, 7, 64 (and 3000 under pools of 8 and 16 threads) with an instrumented child maker that records the address and contents of the population it is shown and two words drawn from the generator it is handed, and fails at a chosen call; failure injected at every call position (sampled for size 64), at a position beyond the last call, and not at all. Judged in coqc: exactly n invocations on success, every invocation saw the generation\'s own, unmodified population, all drawn words pairwise distinct - within a step and across all steps of one Generation value (a failed step does not rewind the randomness) -, the new population is exactly the children (in call order for serial - computed by the model serial_next from the logged per-call behaviour - as a multiset for parallel), on failure the population equals the old one, the error is the failing child\'s, and serial stepping stops right there. BULK steps: 400 000 (and 50 000 with an injected failure) scored individuals through a GenomeScorer child maker, serial and under pools of 8 / 16 threads; the log is reduced to counts by the harness and judged in coqc: n calls and n children, all calls saw the old population, the (word1, word2) pairs drawn by the calls are pairwise distinct (128 bits each: an honest generator collides with probability < 2^-90, children seeded from a 32-bit space collide about 18 times), the population afterwards is the children / the old population. Non-trivial: non-empty population.',
+    classify=lambda i, o: ('parallel/islands' if i[0] >= 500 else ('serial' if i[0] % 100 == 0 else 'parallel') + ('/genome-scorer' if i[0] >= 100 else '') + ('/bulk' if i[0] >= 400 else '')),
+    bucket=lambda i, o: ['mode=%s' % ('islands/%d' % (i[0] - 500) if i[0] >= 500 else ('serial' if i[0] % 100 == 0 else 'par/%d' % (i[0] % 100)) + ('/genome-scorer' if i[0] >= 100 else '') + ('/bulk' if i[0] >= 400 else '')),
+                         'size=%d' % (i[1][0] if 400 <= i[0] < 500 else len(i[1])), 'failure=%s' % ('in the other value' if i[0] >= 500 else 'injected' if 0 <= i[2] < (i[1][0] if i[0] >= 400 else len(i[1])) else 'none')],
+    rule='Generation::serial_next and par_next (rayon pools of 1, 2, 3, 4, 8, 16 threads, 6 / 100 repetitions each) over populations (Vec; also BTreeSet whose children collide so that the size changes between the steps of one Generation value, and VecDeque) of size 0, 1, 2, 7, 64 (and 3000 under pools of 8 and 16 threads) with an instrumented child maker that records the address and contents of the population it is shown and two words drawn from the generator it is handed, and fails at a chosen call; failure injected at every call position (sampled for size 64), at a position beyond the last call, and not at all. Judged in coqc: exactly n invocations on success, every invocation saw the generation\'s own, unmodified population, all drawn words pairwise distinct - within a step and across all steps of one Generation value (a failed step does not rewind the randomness) -, the new population is exactly the children (in call order for serial - computed by the model serial_next from the logged per-call behaviour - as a multiset for parallel), on failure the population equals the old one, the error is the failing child\'s, and serial stepping stops right there. Small populations: every child also makes a 15-byte bulk draw whose last 7 bytes count as a third word (a generator adapter that fills whole words only leaves them the same in every child). ISLANDS: two Generation values stepping with par_next at the same time in separate pools, one failing early - the step of the other one must be a complete successful step (nothing a step uses may be shared between values); in a third of these the observed child maker yields to its pool in the middle of every child (children then run nested on one thread and must still draw their own words). BULK steps: 400 000 (and 50 000 with an injected failure) scored individuals through a GenomeScorer child maker, serial and under pools of 8 / 16 threads; the log is reduced to counts by the harness and judged in coqc: n calls and n children, all calls saw the old population, the (word1, word2) pairs drawn by the calls are pairwise distinct (128 bits each: an honest generator collides with probability < 2^-90, children seeded from a 32-bit space collide about 18 times), the population afterwards is the children / the old population. Non-trivial: non-empty population.',
     trusted=['thread interleavings are SAMPLED, not enumerated; that children cannot mutate the shared population is Rust\'s &P / Sync typing (trusted)',
              'the randomness of Generation is rand::rng() (thread RNG): not seedable, so the judge is relational over the recorded words'],
     assumptions=['distinctness of 64-bit words drawn by different children stands for "own live randomness" (collision probability negligible)',
